@@ -23,15 +23,13 @@ from models import c14_driver as M
 LEVEL = "fault_enumeration"
 BUDGET = {"quick": 240, "thorough": 1500}
 
-FAULTS = {"quick": ["exit1", "kill", "noexec", "partial"],
+FAULTS = {"quick": ["exit1", "exit3", "segv", "kill", "noexec", "partial"],
           "thorough": ["exit1", "exit3", "segv", "kill", "noexec", "partial"]}
+ALL_KINDS = ["c", "c_pp", "c_parse", "c_gen", "c_nx", "c_dir", "s", "s_bad", "s_nx", "o", "o_bad", "o_nx"]
 # input-kind alphabets per list length
 ALPHABET = {
-    "quick": {1: ["c", "c_pp", "c_parse", "c_gen", "c_nx", "c_dir", "s", "s_bad", "s_nx", "o", "o_bad", "o_nx"],
-              2: ["c", "c_gen", "c_nx", "s", "o"]},
-    "thorough": {1: ["c", "c_pp", "c_parse", "c_gen", "c_nx", "c_dir", "s", "s_bad", "s_nx", "o", "o_bad", "o_nx"],
-                 2: ["c", "c_pp", "c_parse", "c_gen", "c_nx", "c_dir", "s", "s_bad", "s_nx", "o", "o_bad", "o_nx"],
-                 3: ["c", "c_gen", "c_nx", "s", "o"]},
+    "quick": {1: ALL_KINDS, 2: ["c", "c_pp", "c_gen", "c_nx", "c_dir", "s", "s_bad", "o"]},
+    "thorough": {1: ALL_KINDS, 2: ALL_KINDS, 3: ["c", "c_gen", "c_nx", "s", "o"]},
 }
 RUN_TIMEOUT = 60
 
@@ -103,6 +101,47 @@ def read_trace(path):
     except FileNotFoundError:
         pass
     return recs
+
+
+# ----------------------------------------------------------------------------------------------------
+# private /tmp per worker process
+# ----------------------------------------------------------------------------------------------------
+_ISOLATED = None
+
+
+def isolate_tmp(cfg):
+    """Give this (pool worker) process a private, empty /tmp through a mount namespace, with the check's work
+    directory still visible at its usual path.  Drivers run by different workers then cannot meet in /tmp, so
+    part 1 is deterministic even for a driver with colliding temporary names (interference between drivers is
+    explored deliberately, and deterministically, in part 2).  Returns False where namespaces are unavailable;
+    the check then relies on serial confirmation of every violation."""
+    global _ISOLATED
+    if _ISOLATED is not None:
+        return _ISOLATED
+    _ISOLATED = False
+    if os.environ.get("C14_NO_ISOLATION"):
+        return False
+    import ctypes
+    libc = ctypes.CDLL(None, use_errno=True)
+    CLONE_NEWNS, MS_BIND, MS_REC, MS_PRIVATE = 0x00020000, 0x1000, 0x4000, 1 << 18
+    root = cfg["root"]
+    import tempfile
+    priv = tempfile.mkdtemp(prefix="ptmp", dir=root)
+    rel = os.path.relpath(root, "/tmp")
+    os.makedirs(priv if rel.startswith("..") else os.path.join(priv, rel), exist_ok=True)
+    if libc.unshare(CLONE_NEWNS) != 0:
+        return False
+    if libc.mount(b"none", b"/", None, MS_REC | MS_PRIVATE, None) != 0:
+        return False
+    if not rel.startswith(".."):
+        if libc.mount(root.encode(), os.path.join(priv, rel).encode(), None, MS_BIND, None) != 0:
+            return False
+    if libc.mount(priv.encode(), b"/tmp", None, MS_BIND | MS_REC, None) != 0:
+        raise core.HarnessError("could not mount a private /tmp")
+    if not os.path.exists(cfg["chibicc"]) or len(os.listdir("/tmp")) > 1:
+        raise core.HarnessError("private /tmp is not set up as intended")
+    _ISOLATED = True
+    return True
 
 
 # ----------------------------------------------------------------------------------------------------
@@ -221,7 +260,7 @@ class Sandbox:
                     os.unlink(p)
                 except OSError:
                     pass
-        ntemps = sum(1 for r in trace if r[1] == "mk")
+        ntemps = len(set(r[2] for r in trace if r[1] == "mk" or (r[1] == "cr" and is_temp_loc(r[2]))))
         return {"status": status, "stdout": out, "stderr": err, "steps": steps, "ends": ends, "leaks": leaks,
                 "driver_seen": driver_seen, "ntemps": ntemps}
 
@@ -301,6 +340,12 @@ def judge(shape, fault, obs, before, after, base_steps=None, cc1_slots=None):
                 cnt["unjudged_partial_write_is_the_fault"] = 1   # the injected fault itself is the write
                 flagged.add(p)
                 continue
+            if p in before and p not in after:
+                # a driver may delete a stale output when its translation unit fails (gcc does); the property
+                # forbids creating and overwriting, not this
+                cnt["failed_tu_stale_output_removed"] = cnt.get("failed_tu_stale_output_removed", 0) + 1
+                flagged.add(p)
+                continue
             devs.append(("failed-tu-output-created" if p not in before else "failed-tu-output-overwritten",
                          "%s: %s -> %s" % (p, show(before.get(p)), show(after.get(p)))))
             flagged.add(p)
@@ -320,7 +365,7 @@ def judge(shape, fault, obs, before, after, base_steps=None, cc1_slots=None):
         if p in shape.inputs:
             devs.append(("input-modified", "%s: %s -> %s" % (p, show(before.get(p)), show(after.get(p)))))
         elif p not in allowed:
-            ext = os.path.splitext(p)[1] or os.path.basename(p)
+            ext = "-o-path" if p == shape.opath else "a.out" if p == "a.out" else (os.path.splitext(p)[1] or "other")
             devs.append(("unexpected-file|%s" % ext, "%s: %s -> %s (requested outputs: %s)" % (p, show(before.get(p)), show(after.get(p)), shape.outputs)))
     if shape.ok is True and not fault and st == 0:
         for p in shape.outputs:
@@ -413,10 +458,12 @@ def run_shape(cfg, shape, faults, rundir):
 
 def _shape_batch(args):
     cfg, specs, faults, wid = args
+    iso = isolate_tmp(cfg)
     out = []
     for spec in specs:
         shape = M.Shape(*spec)
         r = run_shape(cfg, shape, faults, os.path.join(cfg["root"], "w%d" % wid))
+        r["iso"] = iso
         out.append((spec, r))
     return out
 
@@ -549,6 +596,8 @@ SCENARIOS = {
     "c-overlap-input": (["a.c", "b.c"], [["-c", "a.c", "b.c"], ["-c", "-o", "x.o", "b.c"]]),
     "S-and-link": (["a.c", "b.c"], [["-S", "-o", "a.s", "a.c"], ["-o", "pb", "b.c"]]),
     "c3": (["a.c", "b.c", "c.c"], [["-c", "a.c"], ["-c", "b.c"], ["-c", "c.c"]]),
+    "c-same-output-different-input": (["a.c", "b.c"], [["-c", "-o", "x.o", "a.c"], ["-c", "-o", "x.o", "b.c"]]),
+    "link3": (["a.c", "b.c"], [["-o", "pa", "a.c"], ["-o", "pb", "b.c"], ["-o", "pa2", "a.c"]]),
 }
 SCEN_FILES = {
     "a.c": b"int vp_a(void){return 11;}\nint main(void){return 0;}\n",
@@ -556,11 +605,13 @@ SCEN_FILES = {
     "c.c": b"int vp_c(void){return 33;}\nint main(void){return 0;}\n",
 }
 SCEN_PLAN = {
-    "quick": [("link-distinct", ["exit1"]), ("link-same-input-same-output", []), ("c-default-names", ["kill"]),
-              ("c-overlap-input", []), ("S-and-link", [])],
-    "thorough": [("link-distinct", ["exit1", "kill", "partial"]), ("link-same-input-same-output", ["exit1"]),
-                 ("c-default-names", ["exit1", "kill", "partial"]), ("c-overlap-input", ["exit1"]),
-                 ("S-and-link", ["exit1", "kill"]), ("c3", ["exit1"])],
+    "quick": [("link-distinct", ["exit1", "kill"]), ("link-same-input-same-output", ["exit1"]),
+              ("c-default-names", ["kill", "partial"]), ("c-overlap-input", ["exit1"]), ("S-and-link", ["exit1"])],
+    "thorough": [("link-distinct", ["exit1", "segv", "kill", "noexec", "partial"]),
+                 ("link-same-input-same-output", ["exit1", "kill", "partial"]),
+                 ("c-default-names", ["exit1", "kill", "noexec", "partial"]), ("c-overlap-input", ["exit1", "kill"]),
+                 ("S-and-link", ["exit1", "kill"]), ("c3", ["exit1", "kill"]), ("link3", []),
+                 ("c-same-output-different-input", ["exit1"])],
 }
 
 
@@ -572,7 +623,9 @@ def solo_result(cfg, rundir, files, argv, fault):
 
 def _sched_batch(args):
     """One scenario x one fault assignment x a list of schedules."""
-    cfg, scen, fault_assign, schedules, _unused, wid = args
+    cfg, scen, fault_assign, schedules, isolate, wid = args
+    if isolate:
+        isolate_tmp(cfg)
     files = {n: SCEN_FILES[n] for n in SCENARIOS[scen][0]}
     cmds = SCENARIOS[scen][1]
     rundir = os.path.join(cfg["root"], "s%d" % wid)
@@ -684,26 +737,71 @@ def run(ctx):
     if not any(r["status"] == 0 for _, r in results) or not any(r["status"] not in (0, None) for _, r in results):
         raise core.HarnessError("vacuous: all commands succeeded or all failed")
 
-    # attribute violations to minimal input-kind sets within (mode, o, outloc-independent, fault class, deviation)
+    # Signature = deviation x minimal input-kind set x the modes and fault classes that show it.  Within one
+    # (mode, -o, fault class) cell a case is attributed to a minimal violating kind set; cells sharing kind set and
+    # deviation are merged into one signature that lists their modes and faults ("cc1:*" = every enumerated way
+    # of failing that step).  The -o / output-location dimensions go into the description only.
+    def compress_faults(fcs):
+        per = {}
+        for fc in fcs:
+            k, _, how = fc.partition(":")
+            per.setdefault(k, set()).add(how)
+        parts = []
+        for k in sorted(per):
+            parts.append(k if k == "none" else "%s:%s" % (k, "*" if per[k] >= set(faults) else "+".join(sorted(per[k]))))
+        return ",".join(parts)
+
     groups = {}
     for spec, fault, dv, detail in viol:
         mode, o, kinds, outloc = spec
-        groups.setdefault((mode, o or "absent", fault_class(fault), dv), []).append((frozenset(kinds), spec, fault, detail))
-    for (mode, o, fc, dv), items in sorted(groups.items()):
-        minimal = []
-        for ks in sorted(set(i[0] for i in items), key=lambda s: (len(s), sorted(s))):
-            if not any(m <= ks for m in minimal):
-                minimal.append(ks)
-        for ks, spec, fault, detail in sorted(items, key=lambda t: (len(t[1][2]), t[1][2], t[1][3])):
-            attr = next(m for m in minimal if m <= ks)
-            sig = "C14|%s|o=%s|inputs=%s|fault=%s|%s" % (mode, o, "+".join(sorted(attr)), fc, dv)
+        groups.setdefault(dv, {}).setdefault((mode, o or "absent", fault_class(fault)), []).append((frozenset(kinds), spec, fault, detail))
+    for dv, cells in sorted(groups.items()):
+        attributed = []     # (attr kinds, mode, fault class, spec, fault, detail)
+        for (mode, o, fc), items in sorted(cells.items()):
+            minimal = []
+            for ks in sorted(set(i[0] for i in items), key=lambda s: (len(s), sorted(s))):
+                if not any(m <= ks for m in minimal):
+                    minimal.append(ks)
+            for ks, spec, fault, detail in items:
+                attributed.append((next(m for m in minimal if m <= ks), mode, fc, spec, fault, detail))
+        modes_of, faults_of = {}, {}
+        for attr, mode, fc, spec, fault, detail in attributed:
+            modes_of.setdefault(attr, set()).add(mode)
+            faults_of.setdefault(attr, set()).add(fc)
+        by_sig = {}
+        for attr, mode, fc, spec, fault, detail in sorted(attributed, key=lambda t: (t[2] != "none", len(t[3][2]), t[3][2], t[3][0], str(t[3][1]), t[3][3], str(t[4]))):
+            sig = "C14|%s|inputs=%s|modes=%s|fault=%s" % (dv, "+".join(sorted(attr)), "+".join(sorted(modes_of[attr])),
+                                                        compress_faults(faults_of[attr]))
+            by_sig.setdefault(sig, []).append((spec, fault, detail))
+        confirmed = []
+        for sig, cases in sorted(by_sig.items()):
+            # Same input must fail twice, the second time with nothing else running: part 1 runs 16 drivers in
+            # parallel, and a driver whose temporaries collide across processes misbehaves there irreproducibly.
+            # Interference is part 2's business, where it is deterministic.
+            hit = None
+            for spec, fault, detail in cases[:3]:
+                r = run_shape(cfg, M.Shape(*spec), [fault[2]] if fault else [], os.path.join(cfg["root"], "confirm"))
+                if any(dv2 == dv and (f2 or None) == fault for f2, dv2, _ in r["viol"]):
+                    hit = (spec, fault, detail)
+                    break
+            if hit:
+                confirmed += [(sig,) + hit] + [(sig,) + c for c in cases if c != hit]
+            else:
+                ctx.cover(part1_cases_not_reproduced_serially=len(cases))
+        for sig, spec, fault, detail in confirmed:
             sh = M.Shape(*spec)
             case = {"part": 1, "spec": [spec[0], spec[1], list(spec[2]), spec[3]], "fault": list(fault) if fault else None,
                     "deviation": dv}
             desc = "chibicc %s  [inputs %s; output location %s; fault %s] -> %s: %s" % (
                 " ".join(sh.argv()), ",".join(spec[2]), spec[3], fault_class(fault) if not fault else "%s#%d:%s" % tuple(fault), dv, detail)
-            ctx.violation(sig, desc, files={"case.json": json.dumps(case, indent=1)}, replay=REPLAY)
+            ctx.violation(sig, desc, files={"case.json": json.dumps(case, indent=1), "README.txt": desc + "\n\ninput kinds are defined in "
+                                            "models/c14_driver.py (c_dir = a directory named *.c, *_nx = nonexistent, ...);\n"
+                                            "replay: CHIBICC=<binary> CHIBICC_DIR=<tree> python3 checks/c14.py --replay-case case.json\n"},
+                          replay=REPLAY)
 
+    if counters.get("timeouts"):
+        ctx.incomplete("%d driver runs hit the %d s harness timeout and were not judged" % (counters["timeouts"], RUN_TIMEOUT))
+    ctx.cover(workers_have_private_tmp=all(r.get("iso") for _, r in results))
     ctx.cover(evaluations=runs, shapes=len(results), shapes_undefined_by_property=undefined,
               fault_points_enumerated=fault_points, temp_creations_observed=ntemps,
               distinct_nontrivial=len(nontrivial), **counters)
@@ -741,7 +839,7 @@ def run(ctx):
             sched_total += len(schedules)
             n = max(1, (len(schedules) + 3) // 4) if len(schedules) > 8 else len(schedules)
             for part in core.chunks(schedules, n):
-                jobs.append((cfg, scen, fa, part, solos, wid))
+                jobs.append((cfg, scen, fa, part, True, wid))
                 wid += 1
     sched_viol = []
     if ctx.out_of_time(reserve=20):
@@ -756,10 +854,18 @@ def run(ctx):
                 sched_viol.append((scen, fa, sch, dv, detail))
     if jobs and len(eff_seen) < 20:
         raise core.HarnessError("vacuous schedule exploration: %d distinct effective schedules" % len(eff_seen))
-    seen_sig = set()
+    confirmed_sig = {}
     for scen, fa, sch, dv, detail in sched_viol:
         f = next(iter(fa.values())) if fa else None
         sig = "C14|concurrent|%s|fault=%s|%s" % (scen, fault_class(f), dv)
+        if sig not in confirmed_sig:
+            # same schedule must fail twice, the second time with nothing else running
+            again = _sched_batch((cfg, scen, fa, [sch], False, 99999))
+            confirmed_sig[sig] = any(dv2 == dv for _, _, _, devs in again for _, dv2, _ in devs)
+            if not confirmed_sig[sig]:
+                ctx.cover(part2_cases_not_reproduced_serially=1)
+        if not confirmed_sig[sig]:
+            continue
         case = {"part": 2, "scenario": scen, "faults": {str(k): list(v) for k, v in fa.items()}, "schedule": list(sch), "deviation": dv}
         ctx.violation(sig, "scenario %s, schedule %s, fault %s -> %s: %s" % (scen, "".join(map(str, sch)), fa or "none", dv, detail),
                       files={"case.json": json.dumps(case, indent=1)}, replay=REPLAY)
@@ -779,6 +885,7 @@ def run(ctx):
     ctx.assume("unreadable input is modelled by a directory and a nonexistent path (the checks run as root); unwritable "
                "output by a nonexistent parent directory (-o) or a directory occupying the default output name")
     ctx.assume("schedules are explored at subprocess-step granularity: one step runs at a time")
+    ctx.assume("a pre-existing output that is deleted (not rewritten) when its translation unit fails is accepted")
 
 
 # ----------------------------------------------------------------------------------------------------
@@ -806,11 +913,7 @@ def replay_case(path):
         fnames, cmds = SCENARIOS[scen]
         files = {n: SCEN_FILES[n] for n in fnames}
         fa = {int(k): tuple(v) for k, v in case["faults"].items()}
-        solos = []
-        for i, argv in enumerate(cmds):
-            o, after, eff = solo_result(cfg, os.path.join(root, "solo"), files, argv, fa.get(i))
-            solos.append((o["status"], {p: v for p, v in after.items() if p not in files}))
-        res = _sched_batch((cfg, scen, fa, [tuple(case["schedule"])], solos, 0))
+        res = _sched_batch((cfg, scen, fa, [tuple(case["schedule"])], False, 0))
         for sch, eff, extra, devs in res:
             for who, dv, detail in devs:
                 if dv == case["deviation"]:
